@@ -113,3 +113,30 @@ package mail
 //@ func mail.Client.DialWithContext
 //@   requires[C17:wf] c != nil
 //@   ensures[C17:hist] r0 == nil ==> c.smtpClient != nil && cdial(c.smtpClient)
+
+// ---------------------------------------------------------------------------
+// C03 / C04  SMTP dialogue typestate on the mail.Client side
+//
+// csess(client): a usable session between two commands
+//@ pred csess(client *smtp.Client) = client != nil && client.didHello && quiet(client.Text)
+//@ func mail.Client.checkConn
+//@   requires[C03,C04:session] client != nil ==> csess(client)
+//@   ensures[C03,C04:session] client != nil ==> csess(client) && txsame(client.Text)
+//@   ensures[C03,C04:nonnil] r0 == nil ==> client != nil
+//@ func mail.Client.ResetWithSMTPClient
+//@   requires[C03,C04:session] client != nil ==> csess(client)
+//@   ensures[C03,C04:session] client != nil ==> csess(client) && (!client.Text.ioerr ==> client.Text.eodacks == old(client.Text.eodacks) && (r0 == nil ==> client.Text.txn == 0) && (r0 != nil ==> client.Text.txn == old(client.Text.txn)))
+//@ func mail.Msg.GetRecipients
+//@   ensures[C03,C04:nonempty] r1 == nil ==> len(r0) >= 1
+//@ func mail.Client.sendSingleMsg (client, message) (err)
+//@   requires[C03,C04:clean] c != nil && message != nil && csess(client) && txidle(client.Text)
+//@   ensures[C03,C04:session] csess(client)
+//@   ensures[C03,C04:clean-or-closed] txidle(client.Text)
+//@   ensures[C03:delivered-truth] message.isDelivered && !old(message.isDelivered) ==> client.Text.ioerr || client.Text.eodacks == old(client.Text.eodacks) + 1
+//@   ensures[C03:acked-is-delivered] !client.Text.ioerr && client.Text.eodacks != old(client.Text.eodacks) ==> message.isDelivered && client.Text.eodacks == old(client.Text.eodacks) + 1
+//@   ensures[C03:nil-is-delivered] err == nil ==> message.isDelivered
+//@   ensures[C03:kept] old(message.isDelivered) ==> message.isDelivered
+//@   loop 1 invariant[C03,C04:rcpt] csess(client) && (0 - 1) <= rangeindex && rangeindex < len(rcpts) && message.isDelivered == old(message.isDelivered) && (!client.Text.ioerr ==> client.Text.eodacks == old(client.Text.eodacks)) && (live(client.Text) ==> (client.Text.txn == 1 || client.Text.txn == 2) && (client.Text.acc >= 1 ==> client.Text.txn == 2) && (!hasError ==> client.Text.rej == 0 && client.Text.acc == rangeindex + 1))
+//@ func mail.Client.SendWithSMTPClient
+//@   requires[C03,C04:hist] c != nil && (client != nil ==> csess(client) && txidle(client.Text))
+//@   loop 1 invariant[C03,C04:between] csess(client) && txidle(client.Text)
